@@ -54,6 +54,13 @@ def be16 (l : Bytes) (i : Nat) : R Nat :=
     | .error e => .error e
     | .ok b => .ok (a.toNat * 256 + b.toNat)
 
+instance {α : Type} [DecidableEq α] : DecidableEq (R α) := fun a b =>
+  match a, b with
+  | .ok x, .ok y => if h : x = y then isTrue (by rw [h]) else isFalse (fun e => h (by cases e; rfl))
+  | .error x, .error y => if h : x = y then isTrue (by rw [h]) else isFalse (fun e => h (by cases e; rfl))
+  | .ok _, .error _ => isFalse (fun e => by cases e)
+  | .error _, .ok _ => isFalse (fun e => by cases e)
+
 /-- the result is a value, not a panic -/
 def IsOk {α : Type} (r : R α) : Prop := ∃ x, r = .ok x
 
